@@ -21,6 +21,7 @@ type execExtra struct {
 	pendingGuardHeaps []string
 	rangeKeys         map[*ssa.Range]string
 	havocAll          bool
+	keyFacts          []*Node
 	siteBindings      map[*SiteSpec]int
 	curLoop           *ssa.BasicBlock
 	pendingParamInv   bool
